@@ -51,6 +51,16 @@ LISTS = {
         "zeroed": lambda f: f["name"] in ("zeroed", "uninitialized"),
         "get_unchecked*": lambda f: f["name"] in ("get_unchecked", "get_unchecked_mut"),
     },
+    # a single attempt whose byte count the caller must handle: xt's own output always goes through the complete forms
+    "bare-write": {
+        "Write::write": lambda f: f.get("trait") == "std::io::Write" and f["name"] == "write",
+        "Write::write_vectored": lambda f: f.get("trait") == "std::io::Write" and f["name"] == "write_vectored",
+    },
+    # ways of opening an input file other than the plain blocking read-only open
+    "open-modes": {
+        "custom_flags": lambda f: f["name"] == "custom_flags" and "OpenOptions" in f.get("trait", "") + f["def"],
+        "OpenOptions::write*": lambda f: f["def"].startswith("std::fs::OpenOptions::") and f["name"] in ("write", "append", "truncate", "create", "create_new"),
+    },
     "discard": {
         "Result::ok": lambda f: f["def"] == "std::result::Result::<T, E>::ok",
         "Result::is_ok": lambda f: f["def"] in ("std::result::Result::<T, E>::is_ok", "std::result::Result::<T, E>::is_err"),
